@@ -108,7 +108,12 @@ def step (s : State) (op : List String) : List (State × List Ev) :=
     let call := natOf call
     if s.closed then
       match s.recvQ with
-      | [] => [(s, [Ev.retErr call "closed"])]
+      | [] =>
+        -- nothing queued; a receiver goroutine still holding a message (capacity 0, or it arrived after the queue
+        -- filled) is still offering it: the select may take it instead of the closed channel
+        match s.inhand with
+        | none => [(s, [Ev.retErr call "closed"])]
+        | some m => [(s, [Ev.retErr call "closed"]), settled { s with inhand := none, rout := s.rout ++ [m] } [] [(call, Ev.retMsg call m.1 m.2)]]
       | m :: q => [(s, [Ev.retErr call "closed"]), settled { s with recvQ := q, rout := s.rout ++ [m] } [] [(call, Ev.retMsg call m.1 m.2)]]
     else [settled { s with parkedRecv := s.parkedRecv ++ [call] } [] []]
   | ["setopt", _, "BEST-EFFORT", v] => [({ s with bestEffort := v == "true" }, [Ev.res "ok"])]
